@@ -25,7 +25,74 @@ func init() {
 		orig(c)
 		c.Rule += " Stream bulk: 1200-fold flat repetitions of 12 templates (set elements, record values, when-clauses, policies of one policy-set document), own and harness encodings, must decode to 1200 copies of the template's tree."
 		c09bulk(c)
+		c09setHistory(c)
 	}
+}
+
+// c09setHistory: a PolicySet is encoded, changed (a policy replaced under its id, removed,
+// added) and encoded again; the second document decodes to the set's contents at that time.
+func c09setHistory(c *mon.Ctx) {
+	c.ParFor("set-json-after-changes", c.N(1500, 20000), func(w *mon.W, i int) {
+		r := w.Rand()
+		ids := []cedar.PolicyID{"a", "policy0", "", "z"}
+		ps := cedar.NewPolicySet()
+		cur := map[cedar.PolicyID]string{}
+		var hist []string
+		mk := func() (*cedar.Policy, string) {
+			mp := gen.RandPolicy(r, gen.ExprCfg{PIll: 0.05, SafeDT: true, WellFormedExt: true}, 2)
+			sanitizePolicy(mp)
+			return NewPolicy(bridge.ToPolicy(mp)), c09canon(mp)
+		}
+		for step := 0; step < 3+r.Intn(6); step++ {
+			id := ids[r.Intn(len(ids))]
+			switch r.Intn(4) {
+			case 0:
+				if _, ok := cur[id]; ok {
+					ps.Remove(id)
+					delete(cur, id)
+					hist = append(hist, fmt.Sprintf("Remove(%q)", id))
+				}
+			case 1:
+				_, _ = ps.MarshalJSON()
+				hist = append(hist, "MarshalJSON")
+			default:
+				p, canon := mk()
+				_, replaced := cur[id]
+				ps.Add(id, p)
+				cur[id] = canon
+				hist = append(hist, fmt.Sprintf("Add(%q, replace=%v)", id, replaced))
+			}
+		}
+		doc, err := ps.MarshalJSON()
+		w.Evals(1)
+		if err != nil {
+			w.Violation("PolicySet.MarshalJSON fails", err.Error(), map[string]any{"history": hist})
+			return
+		}
+		var back cedar.PolicySet
+		if err := back.UnmarshalJSON(doc); err != nil {
+			w.Violation("PolicySet JSON rejected (own encoding, after changes)", err.Error(), map[string]any{"history": hist, "json": string(doc)})
+			return
+		}
+		got := map[cedar.PolicyID]string{}
+		for id, p := range back.All() {
+			got[id], _ = c09canonAST((*ast.Policy)(p.AST()))
+		}
+		w.Count("policy set encoded after a history of changes")
+		if len(cur) > 0 {
+			w.NonTrivial(string(doc))
+		}
+		if len(got) != len(cur) {
+			w.Violation("PolicySet JSON does not hold the set's current ids [after changes]", fmt.Sprintf("after %v the set has %d policies, its JSON %d", hist, len(cur), len(got)), map[string]any{"history": hist, "json": string(doc)})
+			return
+		}
+		for id, cv := range cur {
+			if got[id] != cv {
+				w.Violation("PolicySet JSON holds another policy than the set [after changes]", fmt.Sprintf("after %v the JSON holds under id %q a policy the set no longer has", hist, id), map[string]any{"history": hist, "json": string(doc), "id": string(id)})
+				return
+			}
+		}
+	})
 }
 
 func c09bulk(c *mon.Ctx) {
